@@ -196,6 +196,7 @@ impl Recorder {
         self.flip_retype(_shard, _shards);
         self.lonely_commits(_shard, _shards);
         self.learn_last_then_flip(_shard, _shards);
+        self.memo_boundaries(_shard, _shards);
         for _ in 0..rounds {
             clean_home(&self.home);
             let mut stamp = 1u64;
@@ -604,6 +605,66 @@ impl Recorder {
                                      "filechg": before != after_b, "learnable": last.kind == "full" && idx != last.sel}));
                     if o.kind == "panic" { break 'steps; }
                 }
+            }
+        }
+    }
+
+    /// Directed: whatever a context remembers per composed text may be bounded - and the bound may be reached in the middle
+    /// of a word.  For B in {64 .. 1024} the context first composes exactly B - 3 - j distinct texts (filler words, each
+    /// finished), then a base + suffix word whose j-th letter after the base is the (B+1)-th distinct text; every list of
+    /// that word is compared with a brand-new context (C05 / C06: "any number of other words").
+    fn memo_boundaries(&mut self, shard: usize, shards: usize) {
+        let cfg = Cfg { layout: "phonetic".into(), psug: true, english: false, smart: false, db: true, ..Default::default() };
+        let tests = ["boigulo", "(manushgulo", "sesher", "amarta"];
+        let mut n = 0usize;
+        for bound in [64usize, 128, 256, 512, 1024] {
+            for j in 0..5usize {
+                n += 1;
+                if n % shards.max(1) != shard % shards.max(1) {
+                    continue;
+                }
+                let test = tests[n % tests.len()];
+                let base_len = match test { "boigulo" => 3, "(manushgulo" => 7, "sesher" => 4, _ => 4 };
+                let target = bound.saturating_sub(base_len + j);
+                clean_home(&self.home);
+                let mut ctx = match Ctx::new(&cfg, &self.home) { Ok(c) => c, Err(_) => continue };
+                self.emit(json!({"ev": "new", "cfg": cfg_json(&cfg)}));
+                // filler words: distinct texts, counted by the word part composed after every key
+                let mut seen: std::collections::HashSet<String> = std::collections::HashSet::new();
+                let mut k = 0usize;
+                let mut dead = false;
+                'fill: while seen.len() < target {
+                    // a word that shares no prefix with the test words: z + counter in letters
+                    let mut word = String::from("z");
+                    let mut x = k;
+                    for _ in 0..3 { word.push((b'a' + (x % 26) as u8) as char); x /= 26; }
+                    k += 1;
+                    for (i, ch) in word.chars().enumerate() {
+                        if seen.len() >= target { break; }
+                        let code = self.keys.code_for_char(ch).unwrap();
+                        let o = ctx.key(code, 0, 0);
+                        self.emit(merge(json!({"ev": "key", "code": code, "mod": 0, "sel": 0, "fresh": "skip", "fwhat": ""}), Self::ret_fields(&o)));
+                        if o.kind == "panic" { dead = true; break 'fill; }
+                        seen.insert(word[..=i].to_string());
+                    }
+                    let o = ctx.finish();
+                    self.emit(json!({"ev": "finish", "ongoing": o.ongoing, "panic": o.panic.clone().unwrap_or_default()}));
+                }
+                if dead { continue; }
+                let mut w = Word::new();
+                for ch in test.chars() {
+                    let code = self.keys.code_for_char(ch).unwrap();
+                    let o = ctx.key(code, 0, 0);
+                    if o.kind == "panic" {
+                        self.emit(merge(json!({"ev": "key", "code": code, "mod": 0, "sel": 0, "fresh": "na", "fwhat": ""}), Self::ret_fields(&o)));
+                        break;
+                    }
+                    w.comp.push(ch);
+                    let (f, what) = self.shadow_compare(&cfg, &w, &o, true, 0);
+                    self.emit(merge(json!({"ev": "key", "code": code, "mod": 0, "sel": 0, "fresh": f, "fwhat": what}), Self::ret_fields(&o)));
+                }
+                let o = ctx.finish();
+                self.emit(json!({"ev": "finish", "ongoing": o.ongoing, "panic": o.panic.clone().unwrap_or_default()}));
             }
         }
     }
